@@ -219,7 +219,7 @@ func runC10(c *Ctx) {
 				} else {
 					return false, false
 				}
-				ld, ok := x.(*ssa.UnOp)
+				ld, ok := BoundValue(x).(*ssa.UnOp) // inside an extracted commit-or-rollback helper the error is a parameter
 				if !ok || ld.Op != token.MUL {
 					return false, false
 				}
@@ -230,16 +230,30 @@ func runC10(c *Ctx) {
 				cell = fv
 				return true, a.Op == token.EQL
 			})
-			okGate := c.RequireGate("C10.T2-commit-only-on-success", deferClosure, g, CallSinksX(deferClosure, isCommit, false), "call tx.Commit")
+			commitSinks := CallSinksX(deferClosure, isCommit, false)
+			okGate := c.RequireGate("C10.T2-commit-only-on-success", deferClosure, g, commitSinks, "call tx.Commit")
 			// Rollback on the other edge: with pass edges kept only, rollback unreachable; i.e. every path not passing the pass edge reaches Rollback
 			if okGate {
-				edges2, _ := g.PassEdges(deferClosure)
-				r := Reach(deferClosure, ReachOpts{Removed: edges2, Cut: CutAtCall(isRollback)})
-				bad := ""
-				for _, ret := range Returns(deferClosure) {
-					if r.Reachable(ret) {
-						bad = "the failing edge of the deferred closure can return without Rollback"
+				rollbackOnFail := func(f *ssa.Function) string {
+					edges2, _ := g.PassEdges(f)
+					r := Reach(f, ReachOpts{Removed: edges2, Cut: CutAtCall(isRollback)})
+					for _, ret := range Returns(f) {
+						if r.Reachable(ret) {
+							return "the failing edge of the deferred commit-or-rollback code can return without Rollback"
+						}
 					}
+					return ""
+				}
+				bad := ""
+				if h, _, isExp := ExpandSink(commitSinks[0]); isExp && len(commitSinks) == 1 {
+					// test, Commit and Rollback were moved together into a new helper: decide it there
+					if call, isCall := commitSinks[0].(*ssa.Call); isCall {
+						BindParams(h, call, func() { bad = rollbackOnFail(h) })
+					} else {
+						bad = rollbackOnFail(deferClosure)
+					}
+				} else {
+					bad = rollbackOnFail(deferClosure)
 				}
 				c.Check(bad == "", "C10.T2-commit-only-on-success", FuncName(deferClosure)+"|rollback-on-error-edge", p.Pos(deferClosure.Pos()), orDefault(bad, "err != nil edge reaches tx.Rollback"))
 			}
@@ -483,6 +497,12 @@ func runC10(c *Ctx) {
 			rollbackCl = append(rollbackCl, a)
 		}
 	}
+	// the rollback closure lifted to a method of its own (new since the anchor snapshot)
+	for _, ci := range CallsIn(addToTree) {
+		if cf := CalleeFunc(ci.Common()); cf != nil && cf.Blocks != nil && IsRepoFunc(cf) && IsNewFunc(cf) && len(FieldWrites([]*ssa.Function{cf}, p.Field(ot+":Tree.headIds"))) > 0 {
+			rollbackCl = append(rollbackCl, cf)
+		}
+	}
 	realignTree := AnyOf(CalleeFn(rebuild), CalleeFn(rollbackCl...))
 	addRawRecord := p.Func(al + ":(*aclList).AddRawRecord")
 	setState := p.Func(al + ":(*aclList).setState")
@@ -584,7 +604,7 @@ func runC10(c *Ctx) {
 		c.Fn(FuncName(deferredTx))
 		var ev []ssa.Instruction
 		if createStorage != nil {
-			ev = CallSinks(deferredTx, CalleeFn(createStorage), false)
+			ev = CallSinksX(deferredTx, CalleeFn(createStorage), false) // or the new helper that calls it
 		}
 		// createStorage inlined into the tx driver: the event is the store of the new storage
 		Instrs(deferredTx, func(in ssa.Instruction) {
@@ -604,7 +624,7 @@ func runC10(c *Ctx) {
 		}
 		bad := ""
 		for _, e := range ev {
-			rr := Reach(deferredTx, ReachOpts{From: e, Cut: func(in ssa.Instruction) bool {
+			cutReset := func(in ssa.Instruction) bool {
 				if resetsStorage(in) {
 					return true
 				}
@@ -621,12 +641,13 @@ func runC10(c *Ctx) {
 					}
 				}
 				return false
-			}})
+			}
 			if deferredResetBefore(deferredTx, e, resetsStorage) {
 				continue
 			}
-			for _, ret := range Returns(deferredTx) {
-				if rr.Reachable(ret) && MaybeErrorExit(ret.(*ssa.Return)) {
+			// (path-sensitive in the error value: `if err != nil { s.storage = nil }; return err`)
+			for _, ret := range ErrorExitsReachable(deferredTx, e, cutReset, nil) {
+				{
 					bad = "after createStorage set s.storage, the error exit at " + p.Pos(InstrPos(ret)) + " leaves s.storage pointing at a storage whose creating transaction was rolled back"
 				}
 			}
